@@ -19,8 +19,9 @@ def run(c):
     st = res["stats"]
     c.guard("blocks", st.get("blocks", 0))
     c.guard("accepted", st.get("accepted", 0))
-    c.guard("spec_no_quorum_decisions", st.get("spec_no_quorum_decisions", 0))
-    c.guard("spec_atropos_not_first", st.get("spec_atropos_not_first", 0))
+    # coverage counters of the reference election, over the random DAGs and the corpus replays together
+    c.guard("spec_no_quorum_decisions", st.get("spec_no_quorum_decisions", 0) + cor["total"].get("spec_no_quorum_decisions", 0))
+    c.guard("spec_atropos_not_first", st.get("spec_atropos_not_first", 0) + cor["total"].get("spec_atropos_not_first", 0))
     return lc.finish(c, res, "seeded random DAGs with equal-weight even validator sets (ties), lagging validators (no-quorum decisions, "
                      "deep rounds) and forks < 1/3; every accepted frame and every emitted block compared with the reference",
                      extra=dict(exhaustive_part=ex["total"], model_samples=ex["samples"], tie_corpus=cor["total"]))
